@@ -551,6 +551,357 @@ theorem pairExec_moves {w w' : World} {s p : Nat} {funds : List (Nat × Nat)} {m
     obtain ⟨rfl, _⟩ := he
     exact (attach_moves hs hp h0).trans (pairUpdateDecimals_ledger h1).1.moves
 
+/-! ### router -/
+
+theorem tokSendPair_moves {w w' : World} {t sender p amt : Nat} {hk : Hook} {out : Out}
+    (h : tokSendPair w t sender p amt hk = .ok (w', out)) (hs : S sender) (hp : S p)
+    (hr : ∀ z ∈ hk.receivers, S z) (hlp : ∀ P, w.pair p = some P → Q P.lp) :
+    Moves F S Q w w' ∧ Same w w' ∧ (w.pair p).isSome := by
+  unfold tokSendPair at h
+  simp only [bind_ok_iff] at h
+  obtain ⟨w1, h1, h2⟩ := h
+  have s1 := (tokTransfer_same h1).1
+  obtain ⟨m2, s2⟩ := pairReceive_moves (F := F) (S := S) (Q := Q) h2 hp hs hr (fun P hP => hlp P (s1.pair ▸ hP))
+  refine ⟨(Moves.xfer hs hp h1).trans m2, s1.trans s2, ?_⟩
+  unfold pairReceive at h2
+  rw [s1.pair] at h2
+  cases hP : w.pair p with
+  | none => rw [hP] at h2; cases h2
+  | some P => rfl
+
+theorem routerHop_moves {w w' : World} {sender : Nat} {offer ask : Asset} {to : Option Nat}
+    (h : routerHop w sender offer ask to = .ok w')
+    (hr : S w.router) (hpairs : ∀ z, (w.pair z).isSome → S z) (hto : S (to.getD w.router)) :
+    Moves F S Q w w' ∧ Same w w' := by
+  unfold routerHop at h
+  split at h
+  · cases h
+  split at h
+  · cases h
+  rename_i R hR
+  simp only [bind_ok_iff] at h
+  obtain ⟨amount, _, h⟩ := h
+  cases offer with
+  | native d =>
+    simp only [bind_ok_iff, pure_ok_iff] at h
+    obtain ⟨⟨w1, o⟩, h1, rfl⟩ := h
+    obtain ⟨P, w0, w2, o2, hP, h0, hsw, he⟩ := C14.pairExec_swap_native h1
+    simp only [Prod.mk.injEq] at he
+    obtain ⟨rfl, _⟩ := he
+    have hp : S R.pair := hpairs _ (by rw [hP]; rfl)
+    obtain ⟨m2, s2⟩ := pairSwap_moves (F := F) (S := S) (Q := Q) hsw hp hto
+    exact ⟨(attach_moves hr hp h0).trans m2, (attach_same h0).1.trans s2⟩
+  | token t =>
+    simp only [bind_ok_iff, pure_ok_iff] at h
+    obtain ⟨⟨w1, o⟩, h1, rfl⟩ := h
+    obtain ⟨P, w0, o2, _, hP, htr, _, _, _, hsw⟩ := C02.tokSendPair_swap_ok h1
+    have hp : S R.pair := hpairs _ (by rw [hP]; rfl)
+    obtain ⟨m2, s2⟩ := pairSwap_moves (F := F) (S := S) (Q := Q) hsw hp hto
+    exact ⟨(Moves.xfer hr hp htr).trans m2, (tokTransfer_same htr).1.trans s2⟩
+
+theorem routerHops_moves {to : Nat} (hto : S to) : ∀ (ops : List (Asset × Asset)) {w w' : World},
+    routerHops w to ops = .ok w' → S w.router → (∀ z, (w.pair z).isSome → S z) →
+    Moves F S Q w w' ∧ Same w w'
+  | [], w, w', h, _, _ => by
+    simp only [routerHops] at h; injection h with h; subst h; exact ⟨.refl _, Same.refl _⟩
+  | [(o, a)], w, w', h, hr, hp => by
+    simp only [routerHops] at h
+    exact routerHop_moves h hr hp hto
+  | (o, a) :: b :: rest, w, w', h, hr, hp => by
+    simp only [routerHops, bind_ok_iff] at h
+    obtain ⟨w1, h1, h2⟩ := h
+    obtain ⟨m1, s1⟩ := routerHop_moves (F := F) (S := S) (Q := Q) h1 hr hp hr
+    obtain ⟨m2, s2⟩ := routerHops_moves hto (b :: rest) h2 (s1.router ▸ hr) (fun z hz => hp z (s1.pair ▸ hz))
+    exact ⟨m1.trans m2, s1.trans s2⟩
+
+theorem routerSwapOps_moves {name : Asset → String} {w w' : World} {sender : Nat} {ops : List (Asset × Asset)}
+    {mn to : Option Nat} (h : routerSwapOps name w sender ops mn to = .ok w')
+    (hto : S (to.getD sender)) (hr : S w.router) (hp : ∀ z, (w.pair z).isSome → S z) :
+    Moves F S Q w w' := by
+  unfold routerSwapOps at h
+  split at h
+  · cases h
+  simp only [bind_ok_iff] at h
+  obtain ⟨_, _, h⟩ := h
+  split at h
+  · exact (routerHops_moves hto _ h hr hp).1
+  · simp only [bind_ok_iff, pure_ok_iff] at h
+    obtain ⟨_, _, w1, h1, _, _, rfl⟩ := h
+    exact (routerHops_moves hto _ h1 hr hp).1
+
+theorem routerReceive_moves {name : Asset → String} {w w' : World} {from_ : Nat} {hk : Hook}
+    (h : routerReceive name w from_ hk = .ok w') (hf : S from_) (hrc : ∀ z ∈ hk.receivers, S z)
+    (hroute : hk.isRoute = true → S w.router ∧ ∀ z, (w.pair z).isSome → S z) :
+    Moves F S Q w w' := by
+  cases hk with
+  | routerOps ops mn to =>
+    obtain ⟨hr, hp⟩ := hroute rfl
+    exact routerSwapOps_moves h (getD_mem hf hrc) hr hp
+  | swap offer amt b ms to => cases h
+  | withdraw => cases h
+  | garbage => cases h
+
+theorem routerExec_moves {name : Asset → String} {w w' : World} {sender : Nat} {funds : List (Nat × Nat)}
+    {m : RouterMsg} (h : routerExec name w sender funds m = .ok w')
+    (hs : S sender) (hr : S w.router) (hp : ∀ z, (w.pair z).isSome → S z)
+    (hm : match m with
+      | .swapOps _ _ to => ∀ z ∈ to.toList, S z
+      | .swapOp _ _ to => ∀ z ∈ to.toList, S z
+      | .assertMin .. => True
+      | .receive f _ hk => S f ∧ ∀ z ∈ hk.receivers, S z) :
+    Moves F S Q w w' := by
+  unfold routerExec at h
+  simp only [bind_ok_iff] at h
+  obtain ⟨w0, h0, h⟩ := h
+  have s0 := (attach_same h0).1
+  have hr0 : S w0.router := s0.router ▸ hr
+  have hp0 : ∀ z, (w0.pair z).isSome → S z := fun z hz => hp z (s0.pair ▸ hz)
+  refine (attach_moves hs hr h0).trans ?_
+  cases m with
+  | swapOps ops mn to => exact routerSwapOps_moves h (getD_mem hs hm) hr0 hp0
+  | swapOp o a to => exact (routerHop_moves h hr0 hp0 (getD_mem hr0 hm)).1
+  | assertMin a prev mn rcv =>
+    simp only [bind_ok_iff, pure_ok_iff] at h
+    obtain ⟨_, _, rfl⟩ := h
+    exact .refl _
+  | receive from_ amount hk =>
+    exact routerReceive_moves h hm.1 hm.2 (fun _ => ⟨hr0, hp0⟩)
+
+theorem tokSend_moves {name : Asset → String} {w w' : World} {t s d amt : Nat} {hk : Hook} {out : Out}
+    (h : tokSend name w t s d amt hk = .ok (w', out)) (hs : S s) (hd : S d)
+    (hrc : ∀ z ∈ hk.receivers, S z)
+    (hroute : hk.isRoute = true → S w.router ∧ ∀ z, (w.pair z).isSome → S z)
+    (hlp : ∀ P, w.pair d = some P → Q P.lp) :
+    Moves F S Q w w' := by
+  unfold tokSend at h
+  split at h
+  · exact (tokSendPair_moves h hs hd hrc hlp).1
+  · split at h
+    · simp only [bind_ok_iff, pure_ok_iff, Prod.mk.injEq] at h
+      obtain ⟨w1, h1, w2, h2, rfl, _⟩ := h
+      have s1 := (tokTransfer_same h1).1
+      refine (Moves.xfer hs hd h1).trans (routerReceive_moves h2 hs hrc ?_)
+      intro hi
+      obtain ⟨hr, hp⟩ := hroute hi
+      exact ⟨s1.router ▸ hr, fun z hz => hp z (s1.pair ▸ hz)⟩
+    · cases h
+
+/-! ### factory -/
+
+theorem newTok_moves {w w' : World} {nl : Nat} {T : Token} (hb : w'.bank = w.bank)
+    (ht : w'.tok = fun a => if a = nl then some T else w.tok a)
+    (hB : ∀ z, T.bal z = 0) (hS : T.supply = 0) (hA : ∀ o s, T.allow o s = none)
+    (hfresh : F → w.tok nl = none) : Moves F S Q w w' := by
+  refine .quiet hb (fun hF => ?_)
+  have hn := hfresh hF
+  refine ⟨?_, ?_, ?_⟩
+  · intro a z
+    cases a with
+    | native d => simp [bal, hb]
+    | token u =>
+      by_cases hu : u = nl
+      · subst hu; simp [bal, ht, hn, hB]
+      · simp [bal, ht, hu]
+  · intro u
+    by_cases hu : u = nl
+    · subst hu; simp [supply, ht, hn, hS]
+    · simp [supply, ht, hu]
+  · intro u o s
+    by_cases hu : u = nl
+    · subst hu; simp [allowOf, ht, hn, hA]
+    · simp [allowOf, ht, hu]
+
+theorem facCreatePair_moves {w w' : World} {sender : Nat} {a0 a1 : Asset} {req : Requirements} {comm : Option Nat}
+    {np nl : Nat} (h : facCreatePair w sender a0 a1 req comm np nl = .ok w')
+    (hfresh : F → w.tok nl = none) : Moves F S Q w w' := by
+  unfold facCreatePair at h
+  split at h
+  · cases h
+  split at h
+  · cases h
+  have h' : ∃ cb : Bool, (if cb = true then (.error .err : M World) else _) = .ok w' := ⟨_, h⟩
+  clear h
+  obtain ⟨cb, h⟩ := h'
+  split at h
+  · cases h
+  simp only [bind_ok_iff] at h
+  obtain ⟨d0, _, d1, _, h⟩ := h
+  split at h
+  · cases h
+  injection h with h
+  subst h
+  exact newTok_moves rfl rfl (fun _ => rfl) rfl (fun _ _ => rfl) hfresh
+
+theorem facFanOut1_ledger {denom decimals : Nat} {w w' : World} {msgs msgs' : List (Nat × Nat × Nat)}
+    {e : Bytes × Record} (h : facFanOut1 denom decimals (w, msgs) e = .ok (w', msgs')) : Ledger w w' := by
+  unfold facFanOut1 at h
+  dsimp only at h
+  split at h
+  · cases h
+  injection h with h
+  by_cases h0 : e.2.a0 = .native denom <;> by_cases h1 : e.2.a1 = .native denom <;>
+    simp only [h0, h1, if_true, if_false, Prod.mk.injEq] at h <;>
+    (obtain ⟨rfl, _⟩ := h; exact ⟨rfl, rfl⟩)
+
+theorem facFanOut_fold_ledger {denom decimals : Nat} :
+    ∀ (l : List (Bytes × Record)) {acc acc' : World × List (Nat × Nat × Nat)},
+    l.foldlM (facFanOut1 denom decimals) acc = .ok acc' → Ledger acc.1 acc'.1
+  | [], acc, acc', h => by
+    simp only [List.foldlM_nil, pure_ok_iff] at h; subst h; exact Ledger.refl _
+  | e :: l, (w, msgs), acc', h => by
+    simp only [List.foldlM_cons, bind_ok_iff] at h
+    obtain ⟨⟨w1, msgs1⟩, h1, h2⟩ := h
+    exact (facFanOut1_ledger h1).trans (facFanOut_fold_ledger l h2)
+
+theorem facFanOutMsgs_ledger {denom : Nat} : ∀ (l : List (Nat × Nat × Nat)) {w w' : World},
+    facFanOutMsgs denom w l = .ok w' → Ledger w w'
+  | [], w, w', h => by
+    simp only [facFanOutMsgs] at h; injection h with h; subst h; exact Ledger.refl _
+  | (p, da, db) :: rest, w, w', h => by
+    simp only [facFanOutMsgs, bind_ok_iff] at h
+    obtain ⟨w1, h1, h2⟩ := h
+    exact (pairUpdateDecimals_ledger h1).1.trans (facFanOutMsgs_ledger rest h2)
+
+theorem facAddDecimals_ledger {w w' : World} {sender denom decimals : Nat}
+    (h : facAddDecimals w sender denom decimals = .ok w') : Ledger w w' := by
+  unfold facAddDecimals at h
+  dsimp only at h
+  split at h
+  · cases h
+  split at h
+  · cases h
+  split at h
+  · simp only [bind_ok_iff] at h
+    obtain ⟨⟨w2, msgs⟩, h1, h2⟩ := h
+    have k1 := facFanOut_fold_ledger _ h1
+    have k2 := facFanOutMsgs_ledger _ h2
+    exact Ledger.trans ⟨k1.bank, k1.tok⟩ k2
+  · simp only [pure_ok_iff] at h
+    subst h
+    exact ⟨rfl, rfl⟩
+
+theorem facUpdateConfig_ledger {w w' : World} {sender : Nat} {o : Option Nat}
+    (h : facUpdateConfig w sender o = .ok w') : Ledger w w' := by
+  unfold facUpdateConfig at h
+  split at h
+  · cases h
+  injection h with h
+  subst h
+  exact ⟨rfl, rfl⟩
+
+theorem facMigratePair_ledger {w w' : World} {sender p : Nat} (h : facMigratePair w sender p = .ok w') :
+    Ledger w w' := by
+  unfold facMigratePair at h
+  split at h
+  · cases h
+  split at h
+  · split at h
+    · injection h with h; subst h; exact Ledger.refl _
+    · cases h
+  · cases h
+
+theorem facExec_moves {w w' : World} {s : Nat} {funds : List (Nat × Nat)} {m : FacMsg}
+    (h : facExec w s funds m = .ok w') (hs : S s) (hf : S w.facAddr)
+    (hfresh : F → ∀ a0 a1 req c np nl, m = .createPair a0 a1 req c np nl → w.tok nl = none) :
+    Moves F S Q w w' := by
+  unfold facExec at h
+  simp only [bind_ok_iff] at h
+  obtain ⟨w0, h0, h⟩ := h
+  refine (attach_moves hs hf h0).trans ?_
+  have htok := (attach_same h0).2
+  cases m with
+  | updateConfig o => exact (facUpdateConfig_ledger h).moves
+  | createPair a0 a1 req comm np nl =>
+    exact facCreatePair_moves h (fun hF => htok ▸ hfresh hF a0 a1 req comm np nl rfl)
+  | addDecimals d k => exact (facAddDecimals_ledger h).moves
+  | migratePair p => exact (facMigratePair_ledger h).moves
+
 end handlers
+
+/-! ### every operation -/
+
+theorem isLp_of_pair {w : World} {p : Nat} {P : PairSt} (h : w.pair p = some P) : IsLp w P.lp := ⟨p, P, h, rfl⟩
+
+theorem exec_moves {name : Asset → String} {w w' : World} {op : Op} {out : Out}
+    (h : exec name w op = .ok (w', out)) :
+    Moves (FreshOK w op) (Touched w op) (fun t => IsLp w t ∨ ∃ s amt, op = .tokBurn t s amt) w w' := by
+  cases op with
+  | bankSend s d cs =>
+    simp only [exec, bind_ok_iff, pure_ok_iff, Prod.mk.injEq] at h
+    obtain ⟨w1, h1, rfl, _⟩ := h
+    exact bankSend_moves (S := Touched w (.bankSend s d cs)) (.inl rfl) (.inr rfl) h1
+  | tokTransfer t s d a =>
+    simp only [exec, bind_ok_iff, pure_ok_iff, Prod.mk.injEq] at h
+    obtain ⟨w1, h1, rfl, _⟩ := h
+    exact .xfer (S := Touched w (.tokTransfer t s d a)) (.inl rfl) (.inr rfl) h1
+  | tokSend t s d a hk =>
+    refine tokSend_moves (S := Touched w (.tokSend t s d a hk)) h (.inl rfl) (.inr (.inl rfl))
+      (fun z hz => .inr (.inr (.inl hz))) (fun hi => ⟨.inr (.inr (.inr (.inl ⟨hi, .inr rfl⟩))),
+        fun z hz => .inr (.inr (.inr (.inl ⟨hi, .inl hz⟩)))⟩) (fun P hP => .inl (isLp_of_pair hP))
+  | tokIncAllow t o s a =>
+    simp only [exec, bind_ok_iff, pure_ok_iff, Prod.mk.injEq] at h
+    obtain ⟨w1, h1, rfl, _⟩ := h
+    exact .incAllow (S := Touched w (.tokIncAllow t o s a)) rfl h1
+  | tokBurn t s a =>
+    simp only [exec, bind_ok_iff, pure_ok_iff, Prod.mk.injEq] at h
+    obtain ⟨w1, h1, rfl, _⟩ := h
+    exact .burn (S := Touched w (.tokBurn t s a)) rfl (.inr ⟨s, a, rfl⟩) h1
+  | pair s p f m =>
+    refine pairExec_moves (S := Touched w (.pair s p f m)) h (.inl rfl) (.inr (.inl rfl))
+      (fun P hP => ⟨.inr (.inr (.inl ⟨P, hP, rfl⟩)), .inl (isLp_of_pair hP)⟩) ?_
+    cases m with
+    | provide as0 am0 as1 am1 tol r => exact fun z hz => .inr (.inr (.inr hz))
+    | swap offer amt b ms to => exact fun z hz => .inr (.inr (.inr hz))
+    | receive f' amount hk =>
+      exact ⟨.inr (.inr (.inr (.inl rfl))), fun z hz => .inr (.inr (.inr (.inr hz)))⟩
+    | updateDecimals d da db => trivial
+  | router s f m =>
+    simp only [exec, bind_ok_iff, pure_ok_iff, Prod.mk.injEq] at h
+    obtain ⟨w1, h1, rfl, _⟩ := h
+    refine routerExec_moves (S := Touched w (.router s f m)) h1 (.inl rfl) (.inr (.inl rfl))
+      (fun z hz => .inr (.inr (.inl hz))) ?_
+    cases m with
+    | swapOps ops mn to => exact fun z hz => .inr (.inr (.inr hz))
+    | swapOp o a to => exact fun z hz => .inr (.inr (.inr hz))
+    | assertMin a prev mn rcv => trivial
+    | receive f' amount hk =>
+      exact ⟨.inr (.inr (.inr (.inl rfl))), fun z hz => .inr (.inr (.inr (.inr hz)))⟩
+  | factory s f m =>
+    simp only [exec, bind_ok_iff, pure_ok_iff, Prod.mk.injEq] at h
+    obtain ⟨w1, h1, rfl, _⟩ := h
+    refine facExec_moves (S := Touched w (.factory s f m)) h1 (.inl rfl) (.inr rfl) ?_
+    intro hF a0 a1 req c np nl hm
+    exact (hF s f a0 a1 req c np nl (by rw [hm])).2
+
+/-! ### the C07 statements -/
+
+theorem step_frame {name : Asset → String} {w w' : World} {op : Op} {out : Out}
+    (h : exec name w op = .ok (w', out)) (hf : FreshOK w op) (a : Asset) (z : Nat) (hz : ¬ Touched w op z) :
+    bal w' a z = bal w a z :=
+  (exec_moves h).frame hf a z hz
+
+theorem allowance_frame {name : Asset → String} {w w' : World} {op : Op} {out : Out}
+    (h : exec name w op = .ok (w', out)) (hf : FreshOK w op) (t o s : Nat) (T T' : Token)
+    (hT : w.tok t = some T) (hT' : w'.tok t = some T') (ho : ¬ Touched w op o) : T'.allow o s = T.allow o s := by
+  have := (exec_moves h).allow_frame hf t o s ho
+  simpa [allowOf, hT, hT'] using this
+
+theorem conserve_native {name : Asset → String} {w w' : World} {op : Op} {out : Out}
+    (h : exec name w op = .ok (w', out)) (d : Nat) (L : List Nat) (hn : L.Nodup) (hL : ∀ z, Touched w op z → z ∈ L) :
+    sumBal w' (.native d) L = sumBal w (.native d) L :=
+  (exec_moves h).cons (a := .native d) (fun _ e => by cases e) L hn hL
+
+theorem conserve_token {name : Asset → String} {w w' : World} {op : Op} {out : Out}
+    (h : exec name w op = .ok (w', out)) (hf : FreshOK w op) (t : Nat) (L : List Nat) (hn : L.Nodup)
+    (hL : ∀ z, Touched w op z → z ∈ L) :
+    sumBal w' (.token t) L + supply w t = sumBal w (.token t) L + supply w' t :=
+  (exec_moves h).cons (a := .token t) (fun _ _ => hf) L hn hL
+
+theorem supply_non_lp {name : Asset → String} {w w' : World} {op : Op} {out : Out}
+    (h : exec name w op = .ok (w', out)) (hf : FreshOK w op) (t : Nat) (hlp : ¬ IsLp w t) :
+    supply w' t = supply w t ∨ ∃ s amt, op = .tokBurn t s amt := by
+  by_cases hb : ∃ s amt, op = .tokBurn t s amt
+  · exact .inr hb
+  · exact .inl ((exec_moves h).supply_frame hf t (fun hq => hq.elim hlp hb))
 
 end Halo.C07
